@@ -379,6 +379,8 @@ class Driver:
                 if name == "remove_tasks":
                     drv.pending_remove = list(kw.get("tasks") or [])
                 TR.emit("cmd_done", name=name, sync=instrument.sync_proj(schd))
+                if hasattr(drv, "on_cmd_done"):
+                    drv.on_cmd_done(name, args)
             yield ret
 
         schd.command_queue.put((str(uuid4()), name, execute()))
@@ -555,12 +557,23 @@ async def run_plan(drv: Driver, plan: dict):
             busy = did or any(e["e"] not in ("loop_begin", "loop_end", "rh_compute", "db_commit", "q_release")
                               for e in TR.events[n_before:])
             quiet = 0 if (busy or acts) else quiet + 1
-            if quiet == 2 and drv.routine_poll():
+            try:
+                if quiet == 2 and drv.routine_poll():
+                    quiet = 0
+                if quiet >= 3:
+                    res.end = "stalled" if drv.schd.is_stalled else "quiescent"
+                    TR.emit("quiescent", stalled=bool(drv.schd.is_stalled), sync=instrument.sync_proj(drv.schd))
+                    break
+            except Killed:
+                # (the kill point fell on an event emitted by the harness's own polling / quiescence bookkeeping)
+                res.end = None
+                try:
+                    await _crash_and_reboot(drv, kill)
+                except RestartFailed:
+                    res.end = "restart_failed"
+                    break
                 quiet = 0
-            if quiet >= 3:
-                res.end = "stalled" if drv.schd.is_stalled else "quiescent"
-                TR.emit("quiescent", stalled=bool(drv.schd.is_stalled), sync=instrument.sync_proj(drv.schd))
-                break
+                continue
             if iters >= drv.policy["max_iters"]:
                 res.end = "budget"
                 break
